@@ -3,6 +3,7 @@ C11 — Coroutine payloads of one flavour never run in parallel.
 The model's thread axiom (DESIGN §7.1): each thread executes one thing at a time; hence
 payloads that share their thread are never between checkpoints at the same instant.
 -/
+import CobaldVerif.Generated.Src
 import CobaldVerif.Lemmas.RuntimeInv
 
 namespace Cobald.Props.C11
@@ -76,5 +77,25 @@ example : ((run St.init trace).map (fun s => [s.tid 1, s.tid 2, s.tid 3, s.tid 4
     some [some 0, some 0, some 1, some 2] := by decide +kernel
 -- a second asyncio payload on another thread is not a behaviour of the model
 example : (run St.init (trace.take 9 ++ [.start 2 5])).isNone = true := by decide +kernel
+
+/-! ### the runtime glue as written in the source
+
+The model of this property was transcribed from these functions of `cobald/daemon/runners/`
+(where payloads run: one event loop, one `trio.run` in one executor thread, one thread per threading payload - the thread ids the acceptor checks `start` events against).
+`Gen.runtimePins` is recomputed on every run: the normalised text of every function of the runner
+modules (docstrings, annotations and logging statements dropped) is compared with the text the
+model was last transcribed from (`harness/vh/pins.json`). A changed function breaks this theorem;
+the scenario families are then the search for a failing history. -/
+
+theorem gen_runtime_text :
+    ∀ n ∈ ["asyncio_runner:AsyncioRunner._setup_payload",
+     "trio_runner:TrioRunner._run_trio_blocking",
+     "trio_runner:TrioRunner._manage_payloads_trio",
+     "trio_runner:TrioRunner.manage_payloads",
+     "trio_runner:TrioRunner._submit_payload",
+     "thread_runner:ThreadRunner.register_payload",
+     "meta_runner:MetaRunner._launch_runners",
+     "meta_runner:MetaRunner._manage_runners"],
+      Gen.pinned n = true := by decide
 
 end Cobald.Props.C11
